@@ -6,6 +6,13 @@
 //!    ezk refresh. The oracle is a monitor over the timeline `(virtual ms, event)`; the negotiated
 //!    interval SE and refresher are read from the 2xx (UAS role: from ezk's bytes on the wire with the
 //!    independent reader; UAC role: they are the generated values the peer put into its 2xx).
+//!    A refresh received is answered by the application with `ReInviteReceived::respond_success`, which
+//!    returns when the peer's ACK is there. When that ACK arrives is generated (`reinv_ack_delays`, per
+//!    re-INVITE): at once, after some retransmissions of the 2xx, around the refresher's 10 s margin, up to
+//!    31 s (ezk gives up after 64*T1 = 32 s; a peer that never ACKs is not generated). The oracle does not
+//!    know about ACKs: the interval restarts with the refresh (ezk's 2xx). The phase part of a signature says
+//!    whether the ACK of the last refresh received was delayed (`after-refresh-received-ack-delayed`).
+//!    In the callee role the ACK for the initial 2xx is delayed the same way (`ack_delay`).
 //!  * `registration` (+ `_random`): `Registration` driven the way examples/register.rs does, against a
 //!    scripted registrar answering 200 (Expires header) / 423 (Min-Expires).
 //!  * `registration_bindings` (+ the shaped half of `registration_random`): the same loop, but the 200 has
@@ -24,6 +31,15 @@
 //!    Expires header states it (our Contact absent, without parameter, or agreeing), and the single
 //!    signature `c17.reg/not-refreshed-before-own-contact-expires` when only our Contact's parameter does
 //!    (header absent or different).
+//!  * `registration_history` (+ a share of `registration_random`): histories on ONE `Registration` object with
+//!    rounds that are not a grant: `Unregister` = `create_register(true)`, answered 200 (not handed to the
+//!    object / bare 200 handed over / 200 listing the remaining bindings of other devices), then a pause of
+//!    0 s .. longer than the old lifetime before the next round registers again; `Rejected` = a final
+//!    4xx/5xx/6xx without Min-Expires handed to `receive_error_response`, pause, next round. The registrar
+//!    grants the lifetime the object already holds (the usual case) or another one, `new` was given the same
+//!    or another one. The oracle is the same per 200; the signature names the round before the 200:
+//!    `c17.reg/...:<200|after-423|after-unregister|after-rejection>`. The un-REGISTER and the repeated REGISTER
+//!    take part in the Call-ID / CSeq+1 check. A case ends at the first refresh that never came.
 //!    Not asserted: a 200 that states no lifetime for our binding (no Expires header and our Contact not
 //!    listed / without parameter: class only, no panic); how early a refresh happens; the Expires value of
 //!    the following REGISTER; 422.
@@ -136,6 +152,38 @@ pub struct SessCase {
     pub ack_delay: u64,
     pub steps: Vec<Step>,
     pub rng: u8,
+    /// the peer's ACK for ezk's 2xx to the n-th re-INVITE (n-th executed `Recv` step) arrives this many ms
+    /// after that 2xx (`[n % len]`, see `norm_ack`; empty = at once): the first 2xx / the first ACKs got
+    /// lost, ezk retransmits the 2xx (T1 doubling up to T2) and the application stays inside
+    /// `ReInviteReceived::respond_success` until the ACK is there
+    #[serde(default)]
+    pub reinv_ack_delays: Vec<u64>,
+}
+
+/// Latest ACK that is generated: ezk retransmits a 2xx for 64*T1 = 32 s and then gives up; a peer that never
+/// ACKs is not generated (whether such a re-INVITE counts as a refresh is not in the statement)
+const ACK_MAX_MS: u64 = 31_000;
+
+/// ACK delay as used: at most `ACK_MAX_MS`, and never on (or 1 ms before) a half second after the 2xx
+/// (2xx retransmissions and session timers run on half / whole seconds: ties are don't-cares)
+pub fn norm_ack(d: u64) -> u64 {
+    let mut d = d.min(ACK_MAX_MS);
+    if d == 0 {
+        return 0;
+    }
+    while d % 500 == 0 || d % 500 == 499 {
+        d += 1;
+    }
+    d
+}
+
+/// delay of the ACK for the 2xx of the `n`-th (0-based) re-INVITE of the peer
+pub fn reinv_ack_delay(case: &SessCase, n: usize) -> u64 {
+    if case.reinv_ack_delays.is_empty() {
+        0
+    } else {
+        norm_ack(case.reinv_ack_delays[n % case.reinv_ack_delays.len()])
+    }
 }
 
 fn off_ms(off: Off, se: u64) -> u64 {
@@ -170,6 +218,8 @@ pub enum Ev {
     RefreshSent,
     /// ezk answered the peer's re-INVITE with 200: refresh received
     RefreshRecv,
+    /// the peer's delayed ACK for ezk's 2xx to a re-INVITE is delivered
+    ReInvAcked,
     ByeOnWire,
     ByeReceived,
     Terminated,
@@ -342,6 +392,10 @@ struct PeerDialog {
     seen_branches: Vec<String>,
     acked_initial: bool,
     branch_n: u32,
+    /// re-INVITEs of the peer whose 2xx it has ACKed (a 2xx retransmission seen before that is "lost")
+    reinv_acked: Vec<u32>,
+    /// virtual time at which the ACK for the latest answered re-INVITE is / was sent
+    last_ack_due: u64,
 }
 
 fn contact_uri(m: &WireMsg) -> Option<String> {
@@ -428,7 +482,7 @@ impl Peer {
     }
 
     /// react to one message ezk put on the wire
-    async fn on_sent(&self, s: Sent) {
+    async fn on_sent(self: &Arc<Self>, s: Sent) {
         let Some(m) = WireMsg::parse(&s.bytes) else {
             self.sh.push(Ev::Other("<unparsable>".into()));
             return;
@@ -522,7 +576,7 @@ impl Peer {
                     if first {
                         self.sh.push(Ev::Established);
                         if self.case.ack_delay > 0 {
-                            tokio::time::sleep(Duration::from_millis(self.case.ack_delay)).await;
+                            tokio::time::sleep(Duration::from_millis(self.case.ack_delay.min(ACK_MAX_MS))).await;
                         }
                         self.dlg.lock().acked_initial = true;
                         let ack = self.ack_bytes(INIT_CSEQ);
@@ -544,9 +598,32 @@ impl Peer {
                     if ours {
                         if first {
                             self.sh.push(Ev::RefreshRecv);
+                            let (n, now) = {
+                                let d = self.dlg.lock();
+                                (d.reinv_cseqs.iter().position(|c| *c == cseq).unwrap_or(0), self.sh.clock.now_ms())
+                            };
+                            let delay = reinv_ack_delay(&self.case, n);
+                            self.dlg.lock().last_ack_due = now + delay;
+                            if delay == 0 {
+                                self.dlg.lock().reinv_acked.push(cseq);
+                                let ack = self.ack_bytes(cseq);
+                                self.inject(&ack);
+                            } else {
+                                // this 2xx and the retransmissions before `now + delay` are lost on the way
+                                // (or the ACKs for them are): the ACK that arrives is sent then
+                                let peer = self.clone();
+                                tokio::spawn(async move {
+                                    peer.sh.clock.until(now + delay).await;
+                                    peer.dlg.lock().reinv_acked.push(cseq);
+                                    let ack = peer.ack_bytes(cseq);
+                                    peer.inject(&ack);
+                                    peer.sh.push(Ev::ReInvAcked);
+                                });
+                            }
+                        } else if self.dlg.lock().reinv_acked.contains(&cseq) {
+                            let ack = self.ack_bytes(cseq);
+                            self.inject(&ack);
                         }
-                        let ack = self.ack_bytes(cseq);
-                        self.inject(&ack);
                     } else {
                         self.sh.push(Ev::Other(format!("response {}", m.start)));
                     }
@@ -833,7 +910,9 @@ pub fn run_session(case: &SessCase) -> SessObserved {
                         }
                     }
                     Step::Recv(off) => {
-                        let at = (base + off_ms(off, se)).max(clock.now_ms() + 1);
+                        // a peer does not start a re-INVITE before it has ACKed the previous one
+                        let after_ack = dlg.lock().last_ack_due + 1;
+                        let at = (base + off_ms(off, se)).max(clock.now_ms() + 1).max(after_ack);
                         if sh.wait_for(0, at, ended).await.is_some() {
                             break;
                         }
@@ -983,6 +1062,7 @@ pub fn check_session(case: &SessCase, out: &mut CaseOut) {
     let mut refreshes = 0;
     let mut n_sent = 0;
     let mut n_recv = 0;
+    let mut late_acks = 0;
     for (t, e) in &obs.events {
         let t = *t;
         match e {
@@ -1021,7 +1101,22 @@ pub fn check_session(case: &SessCase, out: &mut CaseOut) {
             Ev::RefreshRecv => {
                 base = t;
                 told = false;
-                phase = "after-refresh-received";
+                // the interval restarts with the refresh (ezk's 2xx), whenever the ACK for it arrives
+                let d = reinv_ack_delay(case, n_recv);
+                phase = if d > 0 { "after-refresh-received-ack-delayed" } else { "after-refresh-received" };
+                if d > 0 {
+                    out.class("refresh-received:ack-delayed");
+                    let margin = 10_000.min(se_ms / 2);
+                    if d >= se_ms {
+                        out.class("refresh-received:ack-later-than-the-interval(application busy, not asserted)");
+                    } else if d >= margin {
+                        late_acks += 1;
+                        out.class("refresh-received:ack-later-than-refresh-margin");
+                    }
+                    if d > 11_500 {
+                        out.class("refresh-received:ack-after->=5-retransmissions-of-the-2xx");
+                    }
+                }
                 refreshes += 1;
                 n_recv += 1;
             }
@@ -1114,6 +1209,16 @@ pub fn check_session(case: &SessCase, out: &mut CaseOut) {
     }
     if refreshes >= 2 {
         out.class("two-or-more-refreshes");
+    }
+    if late_acks > 0 {
+        out.class(match local_refresher {
+            Some(true) => "ack-later-than-refresh-margin:local-is-refresher",
+            Some(false) => "ack-later-than-refresh-margin:local-is-non-refresher",
+            None => "ack-later-than-refresh-margin:undetermined",
+        });
+    }
+    if !case.uac && case.ack_delay >= 10_000 {
+        out.class("initial-ack-delayed>=10s");
     }
     if case.steps.contains(&Step::Silence) {
         out.class("silence-step");
@@ -1239,6 +1344,7 @@ pub fn grid_uas(tier: Tier) -> Vec<SessCase> {
                         ack_delay: if n % 5 == 0 { 700 } else { 0 },
                         steps: steps.clone(),
                         rng: (n % 8) as u8,
+                        reinv_ack_delays: vec![],
                     });
                 }
             }
@@ -1263,8 +1369,63 @@ pub fn grid_uas(tier: Tier) -> Vec<SessCase> {
                     ack_delay: if n % 7 == 0 { 1300 } else { 0 },
                     steps: steps.clone(),
                     rng: (n % 8) as u8,
+                    reinv_ack_delays: vec![],
                 });
             }
+        }
+    }
+    // refreshes received whose ACK is late (the 2xx is retransmitted meanwhile), for a few offers x every Min-SE
+    for (se, refresher) in [(None, 0u8), (Some(90u32), 1), (Some(90), 2), (Some(1), 0)] {
+        for minse in &mins {
+            for (steps, delays) in late_ack_histories(false, tier) {
+                n += 1;
+                out.push(SessCase {
+                    uac: false,
+                    se,
+                    refresher,
+                    minse: *minse,
+                    cfg_se: None,
+                    cfg_refresher: 0,
+                    ack_delay: if n % 6 == 0 { 12_001 } else { 0 },
+                    steps,
+                    rng: (n % 8) as u8,
+                    reinv_ack_delays: delays,
+                });
+            }
+        }
+    }
+    out
+}
+
+/// histories with refreshes received whose ACK arrives late: around the refresher's margin (10 s, half the
+/// interval for short ones is covered by the 700 ms .. 9.999 s values on the SE < 20 rows), after several
+/// retransmissions of the 2xx, and just before ezk would give up (64*T1)
+fn late_ack_histories(uac: bool, tier: Tier) -> Vec<(Vec<Step>, Vec<u64>)> {
+    use Off::*;
+    use Step::*;
+    let mut hs: Vec<Vec<Step>> = vec![
+        vec![Recv(Half)],
+        vec![Recv(Late)],
+        vec![Recv(Early), Recv(Half)],
+        vec![Recv(Half), Silence],
+    ];
+    if uac {
+        hs.extend([vec![Recv(Half), Send], vec![Send, Recv(Half)]]);
+    }
+    let mut ds: Vec<Vec<u64>> = vec![vec![700], vec![4_700], vec![9_998], vec![10_001], vec![12_001], vec![31_000]];
+    if tier == Tier::Thorough {
+        hs.push(vec![Recv(Late), Recv(Late), Recv(Late)]);
+        ds.extend([vec![1], vec![1_300], vec![20_001], vec![12_001, 1]]);
+    }
+    let mut out = vec![];
+    for h in &hs {
+        for d in &ds {
+            out.push((h.clone(), d.clone()));
+        }
+        if h.iter().filter(|s| matches!(s, Recv(_))).count() >= 2 {
+            // only the first / only the second ACK is late
+            out.push((h.clone(), vec![12_001, 0]));
+            out.push((h.clone(), vec![0, 12_001]));
         }
     }
     out
@@ -1297,6 +1458,7 @@ pub fn grid_uac(tier: Tier) -> Vec<SessCase> {
                         ack_delay: 0,
                         steps: steps.clone(),
                         rng: (n % 8) as u8,
+                        reinv_ack_delays: vec![],
                     });
                 }
             }
@@ -1321,11 +1483,47 @@ pub fn grid_uac(tier: Tier) -> Vec<SessCase> {
                     ack_delay: 0,
                     steps: steps.clone(),
                     rng: (n % 8) as u8,
+                    reinv_ack_delays: vec![],
+                });
+            }
+        }
+    }
+    // refreshes received whose ACK is late, for every value and refresher parameter
+    for se in SE_GRID {
+        for refresher in 0..3u8 {
+            for (steps, delays) in late_ack_histories(true, tier) {
+                n += 1;
+                out.push(SessCase {
+                    uac: true,
+                    se: Some(*se),
+                    refresher,
+                    minse: None,
+                    cfg_se: None,
+                    cfg_refresher: 0,
+                    ack_delay: 0,
+                    steps,
+                    rng: (n % 8) as u8,
+                    reinv_ack_delays: delays,
                 });
             }
         }
     }
     out
+}
+
+/// ACK delays of the random sub-checks: none (most), short, around the 10 s margin, anywhere up to 64*T1
+fn any_ack_delays() -> BoxedStrategy<Vec<u64>> {
+    let one = prop_oneof![
+        3 => Just(0u64),
+        2 => 1u64..3000,
+        2 => 9_000u64..12_500,
+        3 => 0u64..=ACK_MAX_MS,
+    ];
+    prop_oneof![
+        2 => Just(vec![]),
+        3 => prop::collection::vec(one, 1..=4),
+    ]
+    .boxed()
 }
 
 fn any_secs(grid: &'static [u32], min: u32) -> BoxedStrategy<u32> {
@@ -1379,11 +1577,12 @@ pub fn strategy_uas() -> BoxedStrategy<SessCase> {
         prop::option::weighted(0.85, any_secs(SE_GRID, 1)),
         0u8..3,
         prop::option::weighted(0.85, any_secs(MINSE_GRID, 0)),
-        prop_oneof![Just(0u64), Just(0u64), Just(700u64), 1u64..3000],
+        prop_oneof![3 => Just(0u64), 1 => Just(700u64), 2 => 1u64..3000, 1 => 3000u64..=ACK_MAX_MS],
         any_steps(false),
         any::<u8>(),
+        any_ack_delays(),
     )
-        .prop_map(|(se, refresher, minse, ack_delay, steps, rng)| SessCase {
+        .prop_map(|(se, refresher, minse, ack_delay, steps, rng, reinv_ack_delays)| SessCase {
             uac: false,
             se,
             refresher: if se.is_some() { refresher } else { 0 },
@@ -1393,6 +1592,7 @@ pub fn strategy_uas() -> BoxedStrategy<SessCase> {
             ack_delay,
             steps,
             rng,
+            reinv_ack_delays,
         })
         .boxed()
 }
@@ -1406,8 +1606,9 @@ pub fn strategy_uac() -> BoxedStrategy<SessCase> {
         0u8..3,
         any_steps(true),
         any::<u8>(),
+        any_ack_delays(),
     )
-        .prop_map(|(se, refresher, minse, cfg_se, cfg_refresher, steps, rng)| SessCase {
+        .prop_map(|(se, refresher, minse, cfg_se, cfg_refresher, steps, rng, reinv_ack_delays)| SessCase {
             uac: true,
             se: Some(se),
             refresher,
@@ -1417,6 +1618,7 @@ pub fn strategy_uac() -> BoxedStrategy<SessCase> {
             ack_delay: 0,
             steps,
             rng,
+            reinv_ack_delays,
         })
         .boxed()
 }
@@ -1588,7 +1790,33 @@ pub enum Ans {
     },
     /// 423 with `Min-Expires: min`
     TooBrief { min: u32, delay: u64 },
+    /// The application takes the binding away: this round's REGISTER is `create_register(true)` (Expires: 0).
+    /// The registrar answers 200 after `delay` ms (`resp`: what that 200 looks like and whether the
+    /// application hands it to `receive_success_response`), then the application stays unregistered for
+    /// `pause_s` seconds (it does not call `wait_for_expiry`: there is nothing to refresh) before the next round.
+    Unregister { delay: u64, resp: UnregResp, pause_s: u32 },
+    /// The REGISTER (`create_register(false)`) is rejected with a final response that carries no Min-Expires
+    /// (`code` from `REJECT_CODES`); the application hands it to `receive_error_response`, waits `pause_s`
+    /// seconds and tries again with the next round.
+    Rejected { code: u16, delay: u64, pause_s: u32 },
 }
+
+/// The 200 to an un-REGISTER. RFC 3261 10.3 step 8: it lists the bindings that remain, ours is not among them.
+/// A 200 that still states a lifetime for our own binding (`Expires: 0` echo, own Contact with `;expires=0`)
+/// is not generated: ezk then asks for `Expires: 0` in the next REGISTER as well (the stored lifetime doubles
+/// as the next request's value), and a registrar granting a lifetime to a removal is outside the domain.
+#[derive(Serialize, Deserialize, Clone, Copy, Debug, Hash, PartialEq, Eq, Default)]
+pub enum UnregResp {
+    /// 200 without Expires / Contact, not handed to the `Registration` (the application only looks at the code)
+    #[default]
+    NotFed,
+    /// 200 without Expires / Contact, handed to `receive_success_response`
+    Bare,
+    /// 200 listing two bindings of other devices (with their own expires parameters), no Expires header, handed over
+    OthersListed,
+}
+
+pub const REJECT_CODES: &[u16] = &[400, 401, 403, 404, 408, 480, 500, 503, 600];
 
 /// plain 200 with `Expires: granted`
 fn ok(granted: u32, delay: u64) -> Ans {
@@ -1613,9 +1841,24 @@ pub struct RegWait {
     pub others_listed: bool,
     pub granted_at: u64,
     pub returned_at: Option<u64>,
-    pub after_423: bool,
+    /// what the round before this 200 was: "200" (a 200 or nothing), "after-423", "after-unregister", "after-rejection"
+    pub prev: &'static str,
+    /// an un-REGISTER happened on this object at some earlier round
+    pub unregistered_before: bool,
     /// false: only a 120 s window was watched
     pub timed: bool,
+}
+
+/// longest pause of the application between two rounds (well inside the range of the virtual clock)
+pub const PAUSE_MAX_S: u32 = 200_000;
+
+/// the application does nothing for `pause_s` seconds. While a timer beyond the range of the virtual clock may
+/// be registered (`tainted`) the clock stays below 2^30 ms: the pause is cut short there
+async fn pause(clock: &Clock, pause_s: u32, tainted: bool) {
+    let ms = pause_s.min(PAUSE_MAX_S) as u64 * 1000;
+    if ms > 0 && (!tainted || clock.now_ms() + ms + 64_000 < (1 << 30)) {
+        clock.advance(ms).await;
+    }
 }
 
 pub struct RegObserved {
@@ -1623,6 +1866,8 @@ pub struct RegObserved {
     pub registers: Vec<(String, u32, Option<String>)>,
     pub waits: Vec<RegWait>,
     pub problems: Vec<String>,
+    /// rounds of the case that were started (all of them unless the case ended at a refresh that never came)
+    pub rounds_run: usize,
 }
 
 pub fn run_registration(case: &RegCase) -> RegObserved {
@@ -1647,7 +1892,14 @@ pub fn run_registration(case: &RegCase) -> RegObserved {
         );
         let mut waits = vec![];
         let mut problems = vec![];
-        let mut after_423 = false;
+        let mut prev: &'static str = "200";
+        let mut unregistered_before = false;
+        let mut rounds_run = 0usize;
+        // Set when `wait_for_expiry` did not return within lifetime + 64 s. The case ends there (the failure is
+        // recorded), and the object is leaked instead of dropped: its timer may then be armed beyond the range
+        // of tokio's wheel (a changed ezk parking it "forever"), and dropping / re-arming such a `Sleep` after it
+        // was polled corrupts the wheel's lists (see `CLOCK_MAX_S`) - the process would die instead of reporting.
+        let mut gave_up = false;
         let mut tainted = case.init as u64 > CLOCK_MAX_S;
         for ans in &case.answers {
             // every value of the answer may end up in a timer (of a changed ezk: also the other devices' values)
@@ -1656,8 +1908,13 @@ pub fn run_registration(case: &RegCase) -> RegObserved {
                     *granted as u64 > CLOCK_MAX_S || values_in_200(*granted, shape).iter().any(|v| *v as u64 > CLOCK_MAX_S)
                 }
                 Ans::TooBrief { min, .. } => *min as u64 > CLOCK_MAX_S,
+                // nothing is to be refreshed after these rounds: an implementation may park its timer then, a
+                // changed one possibly beyond the range of the wheel. From here on a lifetime is only followed
+                // while the whole case stays below 2^30 ms (~12 days), otherwise for the 120 s window
+                Ans::Unregister { .. } | Ans::Rejected { .. } => true,
             };
-            let request = registration.create_register(false);
+            rounds_run += 1;
+            let request = registration.create_register(matches!(ans, Ans::Unregister { .. }));
             let before = log.len();
             let mut tsx = match endpoint.send_request(request, &mut target).await {
                 Ok(t) => t,
@@ -1678,6 +1935,16 @@ pub fn run_registration(case: &RegCase) -> RegObserved {
                     (200, binding_headers(&own_uri, *granted, shape), *delay)
                 }
                 Ans::TooBrief { min, delay } => (423, vec![format!("Min-Expires: {min}")], *delay),
+                Ans::Unregister { delay, resp, .. } => {
+                    let extra = match resp {
+                        UnregResp::OthersListed => {
+                            vec![format!("Contact: <{}>;expires=3412, <{}>;expires=30", FOREIGN[0], FOREIGN[2])]
+                        }
+                        _ => vec![],
+                    };
+                    (200, extra, *delay)
+                }
+                Ans::Rejected { code, delay, .. } => (*code, vec![], *delay),
             };
             if delay > 0 {
                 clock.advance(delay).await;
@@ -1707,6 +1974,9 @@ pub fn run_registration(case: &RegCase) -> RegObserved {
                     let timed = l as u64 <= CLOCK_MAX_S && (!tainted || clock.now_ms() + full < (1 << 30));
                     let limit = if timed { full } else { WINDOW_MS };
                     let r = tokio::time::timeout(Duration::from_millis(limit), registration.wait_for_expiry()).await;
+                    // a refresh that never came although it was followed on the clock: whatever timer the
+                    // object is waiting on now is not one this case accounts for (see `gave_up`)
+                    gave_up = timed && r.is_err();
                     waits.push(RegWait {
                         lifetime: stated.map(|(l, _)| l),
                         src: stated.map(|(_, s)| s).unwrap_or(Src::Header),
@@ -1714,14 +1984,31 @@ pub fn run_registration(case: &RegCase) -> RegObserved {
                         others_listed: !shape.others.is_empty(),
                         granted_at,
                         returned_at: r.ok().map(|_| clock.now_ms()),
-                        after_423,
+                        prev,
+                        unregistered_before,
                         timed,
                     });
-                    after_423 = false;
+                    prev = "200";
+                    if gave_up {
+                        break;
+                    }
                 }
                 Ans::TooBrief { .. } => {
                     let _retry = registration.receive_error_response(response);
-                    after_423 = true;
+                    prev = "after-423";
+                }
+                Ans::Unregister { resp, pause_s, .. } => {
+                    if *resp != UnregResp::NotFed {
+                        registration.receive_success_response(response);
+                    }
+                    pause(&clock, *pause_s, tainted).await;
+                    prev = "after-unregister";
+                    unregistered_before = true;
+                }
+                Ans::Rejected { pause_s, .. } => {
+                    let _retry = registration.receive_error_response(response);
+                    pause(&clock, *pause_s, tainted).await;
+                    prev = "after-rejection";
                 }
             }
         }
@@ -1745,7 +2032,10 @@ pub fn run_registration(case: &RegCase) -> RegObserved {
                 m.header("expires").map(|s| s.to_string()),
             ));
         }
-        RegObserved { registers, waits, problems }
+        if gave_up {
+            std::mem::forget(registration);
+        }
+        RegObserved { registers, waits, problems, rounds_run }
     })
 }
 
@@ -1774,10 +2064,10 @@ pub fn check_registration(case: &RegCase, out: &mut CaseOut) {
             );
         }
     }
-    if obs.problems.is_empty() && obs.registers.len() != case.answers.len() {
+    if obs.problems.is_empty() && obs.registers.len() != obs.rounds_run {
         out.fail(
             "c17.reg/register-count",
-            format!("{} REGISTER transactions for {} rounds", obs.registers.len(), case.answers.len()),
+            format!("{} REGISTER transactions for {} rounds", obs.registers.len(), obs.rounds_run),
         );
     }
     // refresh before the lifetime of OUR binding ends
@@ -1791,7 +2081,7 @@ pub fn check_registration(case: &RegCase, out: &mut CaseOut) {
             out.class("lifetime<=10s(not asserted)");
             continue;
         }
-        let kind = if w.after_423 { "after-423" } else { "200" };
+        let kind = w.prev;
         // what the 200 looked like (part of the signature: a change that is confused by the listed bindings
         // fails under another name than one that mis-handles the plain Expires answer)
         let listed = match (w.others_listed, w.own_listed) {
@@ -1816,7 +2106,11 @@ pub fn check_registration(case: &RegCase, out: &mut CaseOut) {
                 t as i128 - expiry as i128
             )),
             None if !w.timed => {
-                out.class("lifetime-beyond-virtual-clock(120 s window only)");
+                out.class(if l > CLOCK_MAX_S {
+                    "lifetime-beyond-virtual-clock(120 s window only)"
+                } else {
+                    "lifetime-not-followed:case-would-leave-the-first-2^30-ms(120 s window only)"
+                });
                 None
             }
             None => Some("wait_for_expiry did not return within lifetime+64s".to_string()),
@@ -1916,10 +2210,60 @@ pub fn check_registration(case: &RegCase, out: &mut CaseOut) {
                 out.class("423-min-expires");
                 vals.push(*min as u64)
             }
+            Ans::Unregister { .. } | Ans::Rejected { .. } => {}
         }
     }
-    if obs.waits.iter().any(|w| w.after_423) {
+    if obs.waits.iter().any(|w| w.prev == "after-423") {
         out.class("200-after-423");
+    }
+    if obs.waits.iter().any(|w| w.prev == "after-unregister") {
+        out.class("200-after-unregister");
+    }
+    if obs.waits.iter().any(|w| w.prev == "after-rejection") {
+        out.class("200-after-rejection");
+    }
+    if obs.waits.iter().any(|w| w.prev == "after-unregister" && w.timed && w.lifetime.map_or(false, |l| l > 10)) {
+        out.class("200-after-unregister:lifetime-followed-on-the-clock");
+    }
+    if obs.waits.iter().any(|w| w.prev == "after-rejection" && w.timed && w.lifetime.map_or(false, |l| l > 10)) {
+        out.class("200-after-rejection:lifetime-followed-on-the-clock");
+    }
+    if obs.waits.iter().any(|w| w.unregistered_before && w.prev != "after-unregister") {
+        out.class("200-on-an-object-unregistered-earlier");
+    }
+    // registered again with the lifetime the object already holds (from `new` or an earlier 200)
+    {
+        let mut held: Option<u32> = Some(case.init);
+        let mut after_unreg = false;
+        for a in &case.answers {
+            match a {
+                Ans::Ok { granted, shape, .. } => {
+                    let l = stated_lifetime(*granted, shape).map(|(l, _)| l);
+                    if after_unreg && l.is_some() && l == held {
+                        out.class("registered-again-after-unregister-with-the-same-lifetime");
+                    } else if after_unreg {
+                        out.class("registered-again-after-unregister-with-another-lifetime");
+                    }
+                    if l.is_some() {
+                        held = l;
+                    }
+                    after_unreg = false;
+                }
+                Ans::TooBrief { min, .. } => held = Some(*min),
+                Ans::Unregister { resp, pause_s, .. } => {
+                    after_unreg = true;
+                    out.class(match resp {
+                        UnregResp::NotFed => "unregister:200-not-handed-to-the-registration",
+                        UnregResp::Bare => "unregister:bare-200-handed-over",
+                        UnregResp::OthersListed => "unregister:200-lists-other-bindings",
+                    });
+                    if held.map_or(false, |h| *pause_s as u64 + 10 > h as u64) {
+                        out.class("unregister:pause-longer-than-the-old-refresh-period");
+                    }
+                }
+                Ans::Rejected { .. } => out.class("register-rejected"),
+            }
+        }
     }
     if obs.waits.iter().any(|w| w.lifetime.map_or(false, |l| l > 10 && l < 20)) {
         out.class("lifetime-in-(10,20)");
@@ -1961,6 +2305,67 @@ pub fn grid_reg(tier: Tier) -> Vec<RegCase> {
     // a grant equal to what was asked for (the interval created by `new` stays in use)
     for &v in EXP_GRID {
         push(v, vec![ok(v, 700), ok(v, 0)], &mut n);
+    }
+    out
+}
+
+/// histories on ONE `Registration` object with rounds that are not a grant: the binding is removed
+/// (`create_register(true)`) and registered again later, or a REGISTER is rejected and repeated.
+/// value (granted before and again / another one granted afterwards / never granted before, = or != the
+/// lifetime `new` was given) x what the 200 to the un-REGISTER looks like x length of the pause
+pub fn grid_reg_history(tier: Tier) -> Vec<RegCase> {
+    let mut out = vec![];
+    let mut n = 0u32;
+    let values: &[u32] = tier.pick(&[11, 12, 20, 21, 90, 600, 1800, 67_000_000, MAXU][..], EXP_GRID);
+    let resps = [UnregResp::NotFed, UnregResp::Bare, UnregResp::OthersListed];
+    let delays = [0u64, 1, 700, 5000];
+    for &l in values {
+        // another lifetime than `l`
+        let m = if l == 600 { 3600 } else { 600 };
+        for init in [l, m] {
+            for resp in resps {
+                // shorter than any refresh period / a minute / longer than the old lifetime
+                for pause_s in [0u32, 60, (l.min(PAUSE_MAX_S - 100)) + 5] {
+                    n += 1;
+                    let d = delays[(n % 4) as usize];
+                    let un = Ans::Unregister { delay: d, resp, pause_s };
+                    let hs: Vec<Vec<Ans>> = vec![
+                        vec![ok(l, 0), un.clone(), ok(l, d)],
+                        vec![ok(l, 0), ok(l, 0), un.clone(), ok(l, 0)],
+                        vec![un.clone(), ok(l, d)],
+                        vec![ok(l, d), un.clone(), ok(m, 0)],
+                        vec![ok(m, 0), un.clone(), ok(l, 0), ok(l, 0)],
+                        vec![ok(l, 0), un.clone(), un.clone(), ok(l, 700)],
+                        vec![ok(l, 0), un.clone(), Ans::TooBrief { min: m, delay: 0 }, ok(m, 0)],
+                        vec![ok(l, 0), un.clone(), ok(l, 0), un.clone(), ok(l, 0)],
+                    ];
+                    for answers in hs {
+                        n += 1;
+                        out.push(RegCase { init, answers, rng: (n % 8) as u8 });
+                    }
+                }
+            }
+            for (i, &code) in REJECT_CODES.iter().enumerate() {
+                if tier == Tier::Quick && i % 3 != (n % 3) as usize {
+                    continue;
+                }
+                for pause_s in [0u32, 30, (l.min(PAUSE_MAX_S - 100)) + 5] {
+                    n += 1;
+                    let d = delays[(n % 4) as usize];
+                    let rej = Ans::Rejected { code, delay: d, pause_s };
+                    let hs: Vec<Vec<Ans>> = vec![
+                        vec![rej.clone(), ok(l, 0)],
+                        vec![ok(l, 0), rej.clone(), ok(l, d)],
+                        vec![ok(l, d), rej.clone(), ok(m, 0)],
+                        vec![ok(l, 0), rej.clone(), rej.clone(), ok(l, 0), ok(l, 0)],
+                    ];
+                    for answers in hs {
+                        n += 1;
+                        out.push(RegCase { init, answers, rng: (n % 8) as u8 });
+                    }
+                }
+            }
+        }
     }
     out
 }
@@ -2078,12 +2483,40 @@ fn any_shape() -> BoxedStrategy<Shape> {
 pub fn strategy_reg() -> BoxedStrategy<RegCase> {
     let delay = prop_oneof![Just(0u64), Just(1u64), Just(700u64), 0u64..6000];
     let shape = prop_oneof![Just(Shape::default()).boxed(), any_shape()];
+    let pause_s = prop_oneof![Just(0u32), Just(60u32), 0u32..4000, 0u32..=PAUSE_MAX_S];
+    let resp = prop_oneof![Just(UnregResp::NotFed), Just(UnregResp::Bare), Just(UnregResp::OthersListed)];
     let ans = prop_oneof![
-        3 => (any_secs(EXP_GRID, 0), delay.clone(), shape).prop_map(|(granted, delay, shape)| Ans::Ok { granted, delay, shape }),
-        1 => (any_secs(EXP_GRID, 0), delay).prop_map(|(min, delay)| Ans::TooBrief { min, delay }),
+        6 => (any_secs(EXP_GRID, 0), delay.clone(), shape).prop_map(|(granted, delay, shape)| Ans::Ok { granted, delay, shape }),
+        2 => (any_secs(EXP_GRID, 0), delay.clone()).prop_map(|(min, delay)| Ans::TooBrief { min, delay }),
+        2 => (delay.clone(), resp, pause_s.clone()).prop_map(|(delay, resp, pause_s)| Ans::Unregister { delay, resp, pause_s }),
+        1 => (any::<u16>(), delay, pause_s).prop_map(|(c, delay, pause_s)| Ans::Rejected {
+            code: REJECT_CODES[pick_idx(c, REJECT_CODES.len())],
+            delay,
+            pause_s,
+        }),
     ];
-    (any_secs(EXP_GRID, 0), prop::collection::vec(ans, 1..=4), any::<u8>())
-        .prop_map(|(init, mut answers, rng)| {
+    (any_secs(EXP_GRID, 0), prop::collection::vec(ans, 1..=5), any::<u8>(), any::<u8>())
+        .prop_map(|(init, mut answers, rng, same)| {
+            // the usual registrar grants the same lifetime every time (equal successive lifetimes take a
+            // different path in the code): every 200 of the history grants what the first one does, and
+            // in half of these what was asked for is what is granted
+            let mut init = init;
+            if same % 3 == 0 {
+                let first = answers.iter().find_map(|a| match a {
+                    Ans::Ok { granted, .. } => Some(*granted),
+                    _ => None,
+                });
+                if let Some(first) = first {
+                    for a in answers.iter_mut() {
+                        if let Ans::Ok { granted, .. } = a {
+                            *granted = first;
+                        }
+                    }
+                    if same % 2 == 0 {
+                        init = first;
+                    }
+                }
+            }
             // repeat a value now and then: equal successive lifetimes take a different path in the code
             if rng % 3 == 0 && answers.len() >= 2 {
                 let first = match &answers[0] {
@@ -2103,7 +2536,7 @@ pub fn property() -> Property {
     Property {
         fuzz: vec![],
         id: "C17",
-        rule: "session cases = local role (caller via Initiator / callee via Acceptor) x Session-Expires x refresher parameter (uac, uas, absent) x Min-SE x history of <=4 steps {silence for SE+64 s, refresh received = peer re-INVITE at an offset inside the interval (1 ms, half, +-1 ms around SE-10 s, SE-1 ms, random), refresh sent = RefreshNeeded answered with process_default}; registration cases = initial expiry x 1..4 registrar answers {200 granting v, 423 Min-Expires: v} with answer delays; a 200 states the grant as `Expires: v` alone or in the RFC 3261 10.3 shape: own binding {not listed, listed, listed with ;expires=v} x Expires header {v, absent, other value} x 0..3 bindings of other devices (expires absent/shorter/longer) x position of the own binding x Contact layout {comma list, one header each, compact}. Values from {0/1,2,9,10,11,19,20,21,32,33,89,90,1800,2^31-1,2^31,u32::MAX-11..u32::MAX} and random u32. Non-trivial = negotiated/granted value < 90 or within 11 of 0 / 2^31 / u32::MAX, or >=1 refresh (sessions) / >=2 answers or a 200 with a Contact list or without Expires header (registrations), or ezk is the refresher; distinct by hash of the case.",
+        rule: "session cases = local role (caller via Initiator / callee via Acceptor) x Session-Expires x refresher parameter (uac, uas, absent) x Min-SE x history of <=4 steps {silence for SE+64 s, refresh received = peer re-INVITE at an offset inside the interval (1 ms, half, +-1 ms around SE-10 s, SE-1 ms, random), refresh sent = RefreshNeeded answered with process_default} x arrival of the peer's ACK for ezk's 2xx to each re-INVITE {at once, 1 ms .. 31 s later: after retransmissions of the 2xx, +-1 ms around the 10 s margin} (callee role: also for the initial 2xx); registration cases = initial expiry x 1..5 rounds on one Registration object {200 granting v, 423 Min-Expires: v, un-REGISTER (create_register(true)) answered 200 {not handed over, bare, listing other devices} followed by a pause, REGISTER rejected (400..600 without Min-Expires) followed by a pause} with answer delays, every third random history granting one and the same lifetime throughout; a 200 states the grant as `Expires: v` alone or in the RFC 3261 10.3 shape: own binding {not listed, listed, listed with ;expires=v} x Expires header {v, absent, other value} x 0..3 bindings of other devices (expires absent/shorter/longer) x position of the own binding x Contact layout {comma list, one header each, compact}. Values from {0/1,2,9,10,11,19,20,21,32,33,89,90,1800,2^31-1,2^31,u32::MAX-11..u32::MAX} and random u32. Non-trivial = negotiated/granted value < 90 or within 11 of 0 / 2^31 / u32::MAX, or >=1 refresh (sessions) / >=2 answers or a 200 with a Contact list or without Expires header (registrations), or ezk is the refresher; distinct by hash of the case.",
         assumptions: vec![
             "timers run on tokio's paused clock. Expiry is followed on the clock for intervals <= 67,000,000 s (tokio's documented maximum sleep is 2^36 ms ~ 2.2 years; from 63*2^30 ms on tokio 1.53's timer wheel fires timers out of order and can corrupt its lists when such a sleep is reset - reproduced with tokio alone); longer intervals are watched for a 120 s window only: no panic, no BYE inside the window",
             "Session-Expires 0 is not generated (no instant is strictly before the end of an empty interval); Min-SE / Expires 0 are",
@@ -2114,14 +2547,18 @@ pub fn property() -> Property {
             "peer re-INVITEs never land on a whole or half second after the last refresh (ties with the session timer are don't-cares)",
             "the lifetime the registrar granted to ezk's binding is read off the 200 by RFC 3261 10.2.4: the expires parameter of ezk's own Contact (spelled as in the REGISTER), else the Expires header; bindings of other devices listed in the same 200 (URIs differing in host, port, user or scheme) never count. A 200 stating neither is not asserted (no panic only)",
             "every number in a 200 (also other devices' expires values) above 67,000,000 s restricts the rest of the case to the 120 s window / the first 2^30 ms of the clock, because a changed ezk could arm a timer for it",
+            "the peer's ACK for a 2xx arrives at most 31 s after the first transmission of that 2xx (ezk retransmits for 64*T1 = 32 s) and never on a half second (2xx retransmission / session timer ties); a peer that never ACKs is not generated. The peer does not send its next re-INVITE before it has ACKed the previous one. The interval restarts with ezk's 2xx, not with the ACK; while the application is inside respond_success it is not listening (RefreshNeeded later than expiry is not asserted if it never listened during the interval)",
+            "the 200 to an un-REGISTER states no lifetime for ezk's own binding (no Expires header, own Contact not listed): with `Expires: 0` / `;expires=0` handed to receive_success_response ezk's next REGISTER would ask for 0 again, and a registrar granting a lifetime to that is outside the domain. After an un-REGISTER the application does not call wait_for_expiry until it has registered again",
+            "after an un-REGISTER or a rejected REGISTER an implementation may park its timer (a changed one possibly beyond the range of tokio's wheel): from that round on a lifetime is followed on the clock only while the whole case stays within the first 2^30 ms, otherwise for the 120 s window; pauses are cut short the same way. A case ends at the first wait_for_expiry that did not return within lifetime + 64 s (the object is leaked, not dropped)",
             "422, how early a refresh happens and the Expires value of the next REGISTER are not asserted",
         ],
-        explanation: "grid sub-checks enumerate the value grid x refresher parameter x short histories for both roles and (init, answer pairs) for registrations; registration_bindings enumerates requested x granted x (own binding, Expires header) x 12 lists of other bindings x every position x 3 layouts (spelling, header order, answer delay and a repeated second cycle rotate); the _random sub-checks sample random u32 values, longer histories, ACK / answer delays and tokio select seeds",
+        explanation: "grid sub-checks enumerate the value grid x refresher parameter x short histories for both roles and (init, answer pairs) for registrations; registration_bindings enumerates requested x granted x (own binding, Expires header) x 12 lists of other bindings x every position x 3 layouts (spelling, header order, answer delay and a repeated second cycle rotate); registration_history enumerates 9 (thorough: 20) lifetimes x {new() given the same, another one} x 3 un-REGISTER answers x 3 pauses x 8 histories around an un-REGISTER, and x rejection codes x 3 pauses x 4 histories around a rejected REGISTER; both session grids add a block of refreshes received with a late ACK (6 delays x 4..6 histories x every value / Min-SE); the _random sub-checks sample random u32 values, longer histories, ACK / answer delays, pauses and tokio select seeds",
         subs: vec![
             enum_sub("session_uas", grid_uas, check_session),
             enum_sub("session_uac", grid_uac, check_session),
             enum_sub("registration", grid_reg, check_registration),
             enum_sub("registration_bindings", grid_reg_bindings, check_registration),
+            enum_sub("registration_history", grid_reg_history, check_registration),
             prop_sub("session_uas_random", strategy_uas, 600, 6000, check_session),
             prop_sub("session_uac_random", strategy_uac, 1000, 8000, check_session),
             prop_sub("registration_random", strategy_reg, 800, 6000, check_registration),
